@@ -365,7 +365,7 @@ def run(ck):
                 ck.case(mclass, key=("ifs", tk.name, arg), nontrivial=nontriv)
 
     # ---- (a) generated caps: serialization, round trip
-    nspec = 12 if ck.tier == "quick" else 60
+    nspec = 12 if ck.tier == "quick" else 150
     idx = 0
     for round_ in range(nspec):
         for kind in M.KINDS:
@@ -404,7 +404,7 @@ def run(ck):
             ck.case("generated-cap", key=("gen", s), nontrivial=True,
                     sample={"kind": kind.name, "cap": show(s)})
             # ---- (b)/(c) mutations of this cap
-            light = round_ >= (4 if ck.tier == "quick" else 12)
+            light = round_ >= (4 if ck.tier == "quick" else 40)
             for mclass, m in mutations(kind, s if want == s else want, rng, light=light):
                 probe(kind, m, mclass, light)
                 ck.hit("mutation:" + mclass)
@@ -428,7 +428,7 @@ def run(ck):
             ck.case("unknown-cap", key=("unk", u0, deep), nontrivial=True)
 
     # ---- random printable and pseudo-structured strings
-    nrand = 4000 if ck.tier == "quick" else 60000
+    nrand = 4000 if ck.tier == "quick" else 300000
     for i, m in enumerate(random_strings(rng, nrand)):
         if not ck.mine(i):
             continue
@@ -458,9 +458,14 @@ def run(ck):
                      "alleged-prefix-stripped")
 
 
-# MUST_CATCH (self-test on scratch copies, see final report / selftest/RESULTS.md):
-#   1. CHKFileURI.to_string swaps needed_shares/total_shares            -> serialization-differs-from-format, roundtrip-not-equal
-#   2. BASE32STR_128bits uses BASE32CHAR for the last character           -> accepts-noncanonical-base32
-#   3. from_string dispatches 'URI:SSK-RO:' to ReadonlyMDMFFileURI-like   -> parsed-as-different-kind
-#   4. WriteableSSKFileURI.STRING_RE loses its end anchor                 -> accepts-trailing-junk
-#   5. from_string strips *all* leading 'ro.' prefixes (loop)             -> accepts-nonroundtrip-other / outside grammar
+# MUST_CATCH -- planted in scratch copies (VF_REPO), every one exits 1 with the listed key in addition to the
+# three keys the unchanged tree already shows:
+#   1. CHKFileURI.to_string swaps needed_shares/total_shares     -> serialization-differs-from-format, roundtrip-not-equal
+#   2. BASE32STR_128bits accepts any base32 char in last place    -> accepts-noncanonical-base32
+#   3. from_string sends 'URI:SSK-RO:' bodies to SSKVerifierURI   -> parsed-as-different-kind, roundtrip-different-class
+#   4. WriteableSSKFileURI.STRING_RE loses its end anchor         -> accepts-trailing-junk
+#   5. from_string strips repeated 'ro.' prefixes (while loop)    -> parsed-as-different-kind
+#   6. LiteralFileURI.STRING_RE compiled with re.I                -> parsed-as-different-kind ('uri:lit:' header accepted)
+#   7. constraint failures return UnknownURI(s) (prefix stripped) -> unknown-changes-string
+#   8. NUMBER also accepts a leading '+'                          -> accepts-nonroundtrip-other
+# Fix validation: with '\\Z' anchors on every STRING_RE and NUMBER=(0|[1-9][0-9]*) the check exits 0 (seeds 0 and 3).
